@@ -9,6 +9,7 @@ mod interp;
 mod lattice;
 mod macros;
 mod monitor;
+mod testdb;
 mod props;
 
 use fw::*;
